@@ -76,7 +76,7 @@ func (vin) IsTerminal() bool { return false }
 
 type vos struct {
 	args   []string
-	files  vfs
+	fsys   fs.FS
 	stdout *bytes.Buffer
 	stderr *bytes.Buffer
 }
@@ -91,7 +91,7 @@ func (o *vos) InterruptChan() chan struct{}                   { return nil }
 func (o *vos) Args() []string                                 { return o.args }
 func (o *vos) Environ() []string                              { return nil }
 func (o *vos) ConfigDir() (string, error)                     { return "/config", nil }
-func (o *vos) FS() fs.FS                                      { return o.files }
+func (o *vos) FS() fs.FS                                      { return o.fsys }
 func (o *vos) Readline(interp.ReadlineOpts) (string, error)   { return "", io.EOF }
 func (o *vos) History() ([]string, error)                     { return nil, nil }
 
@@ -312,6 +312,10 @@ type session struct {
 	// whether the value is used at all
 	planFn func(rc *rec) (ops []opDesc, stdout bool, ok bool)
 	seen   int
+	// onDisk: serve the input from a real temp file instead of the in-memory FS
+	onDisk bool
+	// emitOnly: evaluate everything (the history matters) but write only this path's case lines
+	emitOnly string
 }
 
 var sess *session
@@ -648,6 +652,9 @@ func (s *session) finish() {
 	if r == nil {
 		return
 	}
+	if s.emitOnly != "" && r.path != s.emitOnly {
+		return
+	}
 	fl := s.flags(r)
 	if r.ownCoord {
 		s.o.Stat("values_owncoord_root", 1)
@@ -769,7 +776,21 @@ func (s *session) runMainOpts(format, opts, fname string, data []byte) (err erro
 	}
 	args = append(args, "-o", "bits_format="+cliFmtFor(s.src))
 	args = append(args, program, fname)
-	vo := &vos{args: args, files: vfs{fname: data}, stdout: s.stdout, stderr: &bytes.Buffer{}}
+	var fsys fs.FS = vfs{fname: data}
+	if s.onDisk {
+		// a real file in a temp dir: `open` gets an *os.File (regular, seekable), i.e. the
+		// ctxreadseeker -> progressreadseeker -> aheadreadseeker (512 KiB window) chain of the CLI
+		dir, derr := os.MkdirTemp(os.Getenv("VERIF_WORK"), "c05in")
+		if derr != nil {
+			return derr
+		}
+		defer os.RemoveAll(dir)
+		if werr := os.WriteFile(filepath.Join(dir, fname), data, 0o644); werr != nil {
+			return werr
+		}
+		fsys = os.DirFS(dir)
+	}
+	vo := &vos{args: args, fsys: fsys, stdout: s.stdout, stderr: &bytes.Buffer{}}
 	sess = s
 	defer func() {
 		if r := recover(); r != nil {
